@@ -19,13 +19,17 @@ META = {
 def run(ctx, res):
     prog = ctx.prog("K0")
     import engine
-    m = framing.rules_new(prog, engine.Filtered(res, {"A-shape", "A-out", "N-pres", "D-len", "D-idx"}))
+    # (A-dig / A-cmp: the checksum verdict is an Ok-path condition too - it must read input[0 .. L+6] and nothing behind it)
+    m = framing.rules_new(prog, engine.Filtered(res, {"A-shape", "A-out", "N-pres", "D-len", "D-idx", "A-dig", "A-cmp", "A-ext", "A-inc", "A-exact"}))
     if m.ok and len(m.oks) == 1:
         framing.rule_n_pres(prog, res, m)
         framing.rule_d_len(prog, res, m)
     # the route by which frames are obtained in practice: the scanner must not make delivery depend on the suffix (a tail-length gate, a
     # look-ahead past the frame): C05's scanner clauses, imported
     framing.rules_scan(prog, engine.Filtered(res, {"S-first", "S-cand", "S-ok", "S-inc", "S-end", "S-skip", "S-shape", "S-sem", "S-anchor"}), m)
+    import bitio
+    bitio.rule_p_pre(prog, engine.Filtered(res, {"P-pre"}, key_contains={"P-pre": ("MessageFrame values are built only",)}))
+    framing.rules_iter(prog, engine.Filtered(res, {"I-iter", "I-state"}))
     dec = dispatch.decode_table(prog, engine.Filtered(res, {"T-dec"}, ("number-source", "return-shape", "default-carries-number", "typed-arm", "empty-arm")))
     if dec:
         dispatch.parser_rule(prog, res, dec)
